@@ -54,10 +54,17 @@ def mat_term(dom, c):
     """Opaque rendering of a structured matrix value."""
     if c.kind == "opaque":
         return c.args[0]
+    if c.kind == "T":
+        return uf("transpose", Vec, Vec)(mat_term(dom, c.args[0]))
+    if c.kind == "cmp":
+        op, x, y = c.args
+        return uf("cmp_" + op, *(_sorts(dom, x, y) + [Vec]))(*_terms(dom, x, y))
+    if c.kind == "scalarbox":
+        return uf("box", R, Vec)(dom.uf_real(c.args[0]))
     if c.kind in ("stack", "diffstack"):
         snap = c.args[0]
         f = uf("mat:" + c.kind, z3.ArraySort(I, Vec), I, I, Vec)
-        if isinstance(snap, tuple) and snap and snap[0] == "sym":
+        if isinstance(snap, tuple) and len(snap) == 4 and isinstance(snap[0], str) and snap[0] == "sym":
             return f(snap[1], snap[2], snap[3])
         # concrete list of Vec terms
         a = z3.K(I, z3.Const("VEC0", Vec))
@@ -71,9 +78,23 @@ def new_arr(dom, term, region=None):
     return dom.run.alloc(term, region)
 
 
+def flat_args(args):
+    out = []
+    for a in args:
+        if isinstance(a, (list, tuple)):
+            out.append("[")
+            out.extend(flat_args(a))
+            out.append("]")
+        else:
+            out.append(a)
+    return out
+
+
 def opaque(dom, name, args, result="V", static=()):
     """Uninterpreted numpy function: result is a fresh array/scalar determined by the argument values."""
-    terms = [vec_of(dom, a) for a in args]
+    fa = flat_args(args)
+    static = tuple(static) + tuple(f"@{i}{a}" for i, a in enumerate(fa) if isinstance(a, str) or a is None)
+    terms = [vec_of(dom, a) for a in fa if not (isinstance(a, str) or a is None)]
     fname = name + ("[" + ",".join(str(s) for s in static) + "]" if static else "")
     rs = {"V": Vec, "R": R, "I": I, "B": B}[result]
     f = uf(fname, *([t.sort() for t in terms] + [rs]))
@@ -142,7 +163,7 @@ def _len(dom, args, kw):
 
 def mat_rows(dom, c):
     snap = c.args[0]
-    if isinstance(snap, tuple) and snap and snap[0] == "sym":
+    if isinstance(snap, tuple) and len(snap) == 4 and isinstance(snap[0], str) and snap[0] == "sym":
         n = snap[3] - snap[2]
     else:
         n = z3.IntVal(len(snap))
@@ -502,12 +523,14 @@ def _np_copy(dom, args, kw):
 @model("ndarray.astype")
 def _astype(dom, args, kw):
     a = args[0]
-    if kw.get("copy", True) is not True:
-        raise Unsupported("astype(copy=False)")
     c = dom.run.heap[a.ref]
+    tag = dom.run.ghost.get("dtype", {}).get(a.ref, "float64")
+    if kw.get("copy", True) is not True:
+        if kw.get("copy") is False and tag == "float64":
+            return a                    # numpy: no copy when the dtype already matches -> the same array object
+        raise Unsupported("astype(copy=...) with a symbolic flag or a dtype change")
     if isinstance(c, ND):
         return dom.run.alloc(ND(c.shape, list(c.flat)))
-    tag = dom.run.ghost.get("dtype", {}).get(a.ref, "float64")
     if tag == "float64":
         return dom.run.alloc(c)         # float64 -> float: fresh array, same value
     return opaque(dom, "astype_float", [a])
@@ -623,6 +646,10 @@ def _T(dom, a):
             return a
         r, k = c.shape
         return dom.run.alloc(ND((k, r), [c.flat[i * k + j] for j in range(k) for i in range(r)]))
+    if isinstance(c, MatTerm):
+        if c.kind == "T":
+            return dom.run.alloc(c.args[0])
+        return dom.run.alloc(MatTerm("T", c))
     kind = dom.run.ghost.get("ndim", {}).get(a.ref, 1)
     if kind == 1:
         return a                        # transpose of a 1-D array is the array itself (a view of the same data)
@@ -1117,3 +1144,47 @@ def _bytes_compare(dom, args, kw):
 def _log(dom, args, kw):
     dom.run.ghost["log_calls"] = dom.run.ghost.get("log_calls", 0) + 1
     return None
+
+
+# ---------------------------------------------------------------------------------------------- scipy objects
+@model("sp.optimize._constraints.old_bound_to_new")
+def _old_bound_to_new(dom, args, kw):
+    """(n,2) array of (min,max) pairs -> (lb, ub): two fresh arrays, deterministic in the value of `bounds`
+    (None entries become -inf / +inf)."""
+    b = args[0]
+    t = vec_of(dom, b)
+    return (new_arr(dom, uf("bounds_lb", Vec, Vec)(t)), new_arr(dom, uf("bounds_ub", Vec, Vec)(t)))
+
+
+@model("np.repeat")
+def _repeat(dom, args, kw):
+    a = args[0]
+    c = dom.run.heap[a.ref]
+    static = (str(c.flat),) if isinstance(c, ND) else ()
+    rest = [x for x in args[1:]] + [v for k, v in sorted(kw.items()) if is_model(v)]
+    if isinstance(c, ND):
+        r = opaque(dom, "np.repeat", rest, "V", static + tuple(f"{k}={v}" for k, v in sorted(kw.items()) if not is_model(v)))
+    else:
+        r = opaque(dom, "np.repeat", [a] + rest, "V", tuple(f"{k}={v}" for k, v in sorted(kw.items()) if not is_model(v)))
+    dom.run.ghost.setdefault("ndim", {})[r.ref] = 2
+    return r
+
+
+@model("sp.optimize.OptimizeResult")
+def _optimize_result(dom, args, kw):
+    if args:
+        raise Unsupported("OptimizeResult positional arguments")
+    o = Obj("OptimizeResult", dom.run.new_ref())
+    o.f.update(kw)
+    return o
+
+
+@model("sp.optimize.LbfgsInvHessProduct")
+def _lbfgs_inv_hess(dom, args, kw):
+    """LbfgsInvHessProduct(sk, yk) stores its two arguments (fields .sk, .yk)."""
+    if len(args) != 2 or kw:
+        raise Unsupported("LbfgsInvHessProduct signature")
+    o = Obj("LbfgsInvHessProduct", dom.run.new_ref())
+    o.f["sk"], o.f["yk"] = args
+    dom.run.log.append(("hess_inv_built", args[0].ref, args[1].ref, dom.run.site))
+    return o
